@@ -3,4 +3,4 @@
 cd "$(dirname "$0")/.." || exit 2
 TIER=${1:-quick}
 PAR=${2:-3}
-ls seeded | xargs -P "$PAR" -I{} sh -c 'p=$(/venv/bin/python -c "import json;print(json.load(open(\"seeded/{}/meta.json\"))[\"property\"])"); timeout 3000 tools/seeded.py detect {} '"$TIER"' $p 2>&1 | tail -1 | cut -c1-200'
+ls seeded | grep -v benign | xargs -P "$PAR" -I{} sh -c 'p=$(/venv/bin/python -c "import json;print(json.load(open(\"seeded/{}/meta.json\"))[\"property\"])"); timeout 3000 tools/seeded.py detect {} '"$TIER"' $p 2>&1 | tail -1 | cut -c1-200'
